@@ -5,6 +5,9 @@ Functions under contract (real source, whole functions):
   Generator._ast_symbols_to_variables list structure (same skip rule for states and derivatives,
                                       Variable vs StringVariable)
   StateAnnotator.enterExpression / exitExpression / exitComponentRef   (pymoca.tree)
+  annotate_states, and the walk / handle_walk / skip_child of whichever walker class it instantiates:
+                                      every node below the class is delivered, bracketed, no field
+                                      skipped except links out of the subtree and documentation
 Symbolic: for every symbol, membership of each prefix keyword (constant, parameter, input, state,
 output), whether it is String-typed, whether its CasADi symbol is empty; the operator of an
 expression node; the der-nesting counter.  Enumerated: number of symbols (1..3), their declaration
@@ -577,15 +580,171 @@ def h_get_derivative(eng):
         eng.prove("der.derivative_of_an_indexed_variable_is_the_same_slice_of_its_derivative_symbol", z3.BoolVal(bool(ok)))
 
 
+# fields a walker may leave out without hiding a differentiated variable: links out of the subtree and
+# documentation; every other field of every node class can hold (part of) an equation, statement or value
+WALK_MAY_SKIP = ("parent", "root", "scope", "__deepcopy__", "comment", "annotation")
+
+
+class Events(Ext):
+    """listener / recorder: every enterX / exitX it is asked for exists and is logged"""
+
+    def __init__(self, log, only=None):
+        self.log, self.only = log, only
+
+    def sym_getattr(self, eng, name):
+        if (name.startswith("enter") or name.startswith("exit")) and (self.only is None or name in self.only):
+            def cb(eng, tree, _n=name):
+                self.log.append((_n, tree))
+            return stub(cb)
+        raise PyRaise(eng.make_exc("AttributeError", name))
+
+
+def _annotate_walker(eng, node):
+    """the real annotate_states(node) with every `walk` defined in pymoca.tree intercepted: returns the
+    (walker, listener, root) triples it starts"""
+    import ast as pyast
+    tm = eng.load_module(TREE)
+    started = []
+    names = [n for n, st in list(tm.lazy.items()) if isinstance(st, pyast.ClassDef)] + \
+            [n for n, v in tm.globals.items() if isinstance(v, VClass) and v.node is not None]
+    for n in names:
+        st = tm.lazy.get(n) or tm.globals[n].node
+        if any(isinstance(b, pyast.FunctionDef) and b.name == "walk" for b in st.body):
+            def rec(eng, args, kwargs):
+                started.append(tuple(args[:3]))
+                return None
+            eng.call_contracts["%s.walk" % n] = rec
+    eng.call(eng.find_function(TREE, "annotate_states"), [node], {})
+    for k in [k for k in eng.call_contracts if k.endswith(".walk")]:
+        del eng.call_contracts[k]
+    return started
+
+
+def h_annotate_states_delivery(eng):
+    """annotate_states reaches every expression and reference of the class: (1) its real body starts one walk of the
+    whole node with a StateAnnotator for that node; (2) the walker class it uses skips no field other than links out of
+    the subtree / documentation (skip_child, for every node class of pymoca.ast and EVERY field name); (3) walk's real
+    body brackets the children between the enter and the exit callback and hands every non-skipped field, in order, to
+    handle_walk; (4) handle_walk's real body walks a node and recurses into every element of a list and every value of a
+    dict.  (1)-(4) lift the per-event contracts of StateAnnotator to the whole tree by induction on its height."""
+    from .ast_common import AstFactory
+    import ast as pyast
+    modules(eng)
+    A = AstFactory(eng)
+    tm = eng.load_module(TREE)
+    part = ["start", "skip", "walk", "handle"][eng.choice(4)]
+    eng.input("part", part)
+    root = A.new("Class", name="M")
+    started = _annotate_walker(eng, root)
+    ok = len(started) == 1 and len(started[0]) == 3 and isinstance(started[0][0], VObj) and isinstance(started[0][1], VObj) \
+        and started[0][1].cls.name == "StateAnnotator" and started[0][1].fields.get("node") is root and started[0][2] is root
+    if part == "start":
+        eng.cover("deliver.start")
+        eng.prove("deliver.annotate_states_starts_one_walk_of_the_whole_node", z3.BoolVal(bool(ok)))
+        if ok:
+            eng.prove("deliver.annotator_starts_outside_der", ops.eq_expr(eng, started[0][1].fields.get("in_der"), 0))
+        return
+    if not ok:
+        return
+    w = started[0][0]
+    am = A.mod
+    node_classes = sorted(n for n, st in list(am.lazy.items()) + [(k, v.node) for k, v in am.globals.items() if isinstance(v, VClass) and v.node is not None]
+                          if isinstance(st, pyast.ClassDef))
+    node_cls = eng.module_global(am, "Node")
+    node_classes = [n for n in node_classes if eng.module_global(am, n).is_subclass_of(node_cls) and n != "Node"]
+    if part == "skip":
+        k = eng.choice(len(node_classes))
+        eng.input("node_class", node_classes[k])
+        try:
+            node = A.new(node_classes[k])
+        except (PyRaise, Unsupported):
+            node = VObj(eng.module_global(am, node_classes[k]), {})
+        name = eng.input("child_name", eng.fresh_str("child_name"))
+        r = eng.call(eng.getattr(w, "skip_child", None, None), [node, name], {})
+        eng.cover("deliver.skip")
+        skipped = ops.truth(eng, r) if not isinstance(r, bool) else z3.BoolVal(r)
+        eng.prove("deliver.walker_skips_only_links_and_documentation",
+                  z3.Implies(skipped, z3.Or([name == z3.StringVal(x) for x in WALK_MAY_SKIP])), node_class=node_classes[k])
+        return
+    log = []
+    lst = Events(log)
+    if part == "walk":
+        # a node with an arbitrary class name and four fields of every kind handle_walk distinguishes
+        shape = eng.choice(2)
+        kids = [A.ref("a"), VList([A.ref("b")]), VDict([("k", A.ref("c"))]), "text"]
+        node = A.expr("der", kids[0]) if shape == 0 else A.new("Symbol", name="x")
+        fields = dict(node.fields)
+        def hw(eng, args, kwargs):
+            log.append(("handle_walk", args[-1], args[-2]))
+            return None
+        for n in ["TreeWalker"] + [c.name for c in w.cls.mro() if c.node is not None]:
+            eng.call_contracts["%s.handle_walk" % n] = hw
+        eng.call(eng.getattr(w, "walk", None, None), [lst, node], {})
+        for k in [k for k in eng.call_contracts if k.endswith(".handle_walk")]:
+            del eng.call_contracts[k]
+        eng.cover("deliver.walk")
+        cname = node.cls.name
+        want_fields = [f for f in fields if f not in WALK_MAY_SKIP]
+        got_mid = [e for e in log if e[0] == "handle_walk"]
+        first = [e for e in log[:log.index(got_mid[0])]] if got_mid else log
+        last = [e for e in log[log.index(got_mid[-1]) + 1:]] if got_mid else []
+        eng.prove("deliver.enter_callback_before_the_children", z3.BoolVal(("enter" + cname, node) in first and not any(e[0].startswith("exit") for e in first)))
+        eng.prove("deliver.exit_callback_after_the_children", z3.BoolVal(("exit" + cname, node) in last and not any(e[0].startswith("enter") and e[0] != "enterEvery" for e in last)))
+        handed = [e[1] for e in got_mid]
+        need = [fields[f] for f in want_fields]
+        pos, okk = 0, True
+        for v in need:
+            while pos < len(handed) and handed[pos] is not v:
+                pos += 1
+            if pos == len(handed):
+                okk = False
+                break
+            pos += 1
+        eng.prove("deliver.every_field_is_handed_to_handle_walk_in_order", z3.BoolVal(okk), fields=want_fields)
+        eng.prove("deliver.children_walked_with_the_same_listener", z3.BoolVal(all(e[2] is lst for e in got_mid)))
+        eng.prove("deliver.each_callback_once", z3.BoolVal(sum(1 for e in log if e[0] == "enter" + cname) == 1 and sum(1 for e in log if e[0] == "exit" + cname) == 1))
+        return
+    # handle_walk
+    kind = ["node", "list", "dict", "other"][eng.choice(4)]
+    eng.input("value_kind", kind)
+    a, b = A.ref("a"), A.ref("b")
+    value = {"node": a, "list": VList([a, "s", b]), "dict": VDict([("p", a), ("q", b)]), "other": "text"}[kind]
+    rec_calls = []
+    f_hw = eng.getattr(w, "handle_walk", None, None)
+    def wk(eng, args, kwargs):
+        rec_calls.append(("walk", args[-1], args[-2]))
+        return None
+    def hw2(eng, args, kwargs):
+        if len(rec_calls) >= 0 and args[-1] is value:
+            return eng.call_function(f_hw.func if isinstance(f_hw, VBound) else f_hw, args, kwargs, bypass_contract=True)
+        rec_calls.append(("handle_walk", args[-1], args[-2]))
+        return None
+    for n in ["TreeWalker"] + [c.name for c in w.cls.mro() if c.node is not None]:
+        eng.call_contracts["%s.walk" % n] = wk
+        eng.call_contracts["%s.handle_walk" % n] = hw2
+    eng.call(f_hw, [lst, value], {})
+    for k in [k for k in eng.call_contracts if k.endswith(".handle_walk") or k.endswith(".walk")]:
+        del eng.call_contracts[k]
+    eng.cover("deliver.handle")
+    want = {"node": [("walk", a)], "list": [("handle_walk", a), ("handle_walk", "s"), ("handle_walk", b)],
+            "dict": [("handle_walk", a), ("handle_walk", b)], "other": []}[kind]
+    got = [(c[0], c[1]) for c in rec_calls]
+    same = len(got) == len(want) and all(g[0] == x[0] and (g[1] is x[1] or (isinstance(x[1], str) and g[1] == x[1])) for g, x in zip(got, want))
+    eng.prove("deliver.handle_walk_reaches_every_node_element_and_value", z3.BoolVal(bool(same)), got=[(c[0], repr(c[1])[:30]) for c in rec_calls])
+    eng.prove("deliver.recursion_keeps_the_listener", z3.BoolVal(all(c[2] is lst for c in rec_calls)))
+
+
 HARNESSES = [("Generator.exitClass", h_exit_class), ("Generator._ast_symbols_to_variables", h_symbols_to_variables),
              ("StateAnnotator", h_state_annotator), ("instances own their prefix lists (deepcopy of ast.Symbol, then the real annotator)", h_instances_own_their_prefix_lists),
              ("Generator.exitClass over the real _ast_symbols_to_variables, arbitrary derivative cache", h_exit_class_composed),
-             ("Generator.get_derivative: constants, variables, indexed variables", h_get_derivative)]
-EXPECTED_COVER = {"class.done", "vars.done", "annot.enterExpression", "annot.exitExpression", "annot.exitComponentRef", "own.copied", "composed.done", "der.constant", "der.symbol", "der.indexed"}
+             ("Generator.get_derivative: constants, variables, indexed variables", h_get_derivative),
+             ("annotate_states / TreeWalker.walk / handle_walk / skip_child: every node is delivered, bracketed", h_annotate_states_delivery)]
+EXPECTED_COVER = {"class.done", "vars.done", "annot.enterExpression", "annot.exitExpression", "annot.exitComponentRef", "own.copied", "composed.done", "der.constant", "der.symbol", "der.indexed",
+                  "deliver.start", "deliver.skip", "deliver.walk", "deliver.handle"}
 BOUNDED = True
 LEVEL = "proof"
 TRUSTED = ["pyvc VC generator", "z3 5.1.0", "sorted() is a stable permutation ordered by the key",
-           "pymoca's TreeWalker calls enterX before and exitX after the children of every node (bracketing), so per-event contracts lift to 'counter = number of enclosing der' by induction over the tree",
+           "the lift from the per-node walker obligations (deliver.*: one walk of the whole node, no field skipped but links/documentation, enter before and exit after the children, handle_walk reaches every node / list element / dict value) and the per-event annotator obligations to 'counter = number of enclosing der at every node of the tree' is an induction on tree height done by hand",
            "get_mx / get_derivative / get_python_type / is_empty (CasADi side) as opaque functions of the symbol"]
 ASSUMPTIONS = [
     "1-3 symbols per class (enumerated), dictionary order versus declaration order enumerated; prefix membership symbolic for every symbol; String-ness and emptiness symbolic for the first symbol of 1- and 2-symbol classes; output flags fixed in the 3-symbol shapes",
@@ -596,6 +755,6 @@ EXPLANATION = "Classification precedence, order, der alignment, outputs and stat
 MANIFEST = {
     "category": "proof",
     "text": "exitClass is executed symbolically for arbitrary prefix combinations, String-ness and emptiness of 1-3 symbols: each variable lands in exactly the list the statement's precedence gives (String constants/parameters in the string lists), declaration order is kept, der_states is aligned one-to-one with states, outputs are the output-prefixed states then algebraics. _ast_symbols_to_variables is verified for its list structure and StateAnnotator's three callbacks for the der-nesting counter and single marking; the copies flattening makes of one declaration (deepcopy through the real ast classes' hooks) own their prefix lists, so marking one instance's variable as a state leaves its siblings and the declaration alone. A bounded replay generates real models over prefix/type/der combinations.",
-    "note": "Symbol counts enumerated up to 3; TreeWalker bracketing, sorted(), and the CasADi-side helpers are assumed; parsing of multi-keyword prefixes belongs to C04.",
+    "note": "Symbol counts enumerated up to 3; sorted() and the CasADi-side helpers are assumed; the walker's delivery (annotate_states, walk, handle_walk, skip_child for every node class and every field name) is under contract, its lift to whole trees is a hand induction; parsing of multi-keyword prefixes belongs to C04.",
     "technique": "contract-based deductive verification: whole-function symbolic execution with symbolic prefix membership, callee contracts, z3",
 }
